@@ -135,7 +135,9 @@ AP_KINDS = {
                                         'h_out': 3.0, 'theta': 0.2}),
 }
 AP_READS = ['bbox', 'area', 'shape', 'isscalar', 'len', 'to_mask',
-            'do_photometry', 'area_overlap', 'positions']
+            'do_photometry', 'area_overlap', 'positions',
+            'area_overlap_maskA', 'do_photometry_maskB', 'area_overlap_maskB',
+            'do_photometry_maskA', 'do_photometry_center', 'area_overlap_subpixel']
 POS_FORMS = [(3.2, 4.1), [(3.2, 4.1)], [(3.2, 4.1), (5.0, 6.0)],
              [(7.5, 2.5), (1.0, 1.0), (2.0, 2.0)], (6.0, 5.5)]
 
@@ -154,6 +156,21 @@ def _ap_read(ap, what, data):
         return ap.do_photometry(data)[0]
     if what == 'area_overlap':
         return np.atleast_1d(ap.area_overlap(data))
+    if what.endswith('_maskA') or what.endswith('_maskB'):
+        # calls with different masks on the same aperture object
+        m = np.zeros(data.shape, bool)
+        if what.endswith('A'):
+            m[2:7, 2:6] = True
+        else:
+            m[4:9, 5:9] = True
+            m[1, 1] = True
+        if what.startswith('area_overlap'):
+            return np.atleast_1d(ap.area_overlap(data, mask=m))
+        return ap.do_photometry(data, mask=m)[0]
+    if what == 'do_photometry_center':
+        return ap.do_photometry(data, method='center')[0]
+    if what == 'area_overlap_subpixel':
+        return np.atleast_1d(ap.area_overlap(data, method='subpixel', subpixels=3))
     if what == 'bbox':
         b = ap.bbox
         return [x.extent for x in (b if isinstance(b, list) else [b])]
